@@ -23,7 +23,7 @@ def run(tier, seed):
              (P.model_set('C11', 'vin'),)] + [(c,) for c in P.model_alter('C11')] + [(P.group_alter('C11'), None, P.replay_group_alter), (P.as_dict('C11'),), (P.as_dict('C11', converter=True),)]
     from contracts import fn_decl as D
     from contracts import fn_sequence as Q
-    items += [(Q.system_reset('C11'),), (Q.p_restore('C11'),)]
+    items += [(Q.system_reset('C11'), None, Q.replay_reset_inputs), (Q.p_restore('C11'), None, Q.replay_reset_inputs)]
     items += [(D.declaration('C11', *D.GENBASE),), (D.declaration('C11', *D.LINE),)]
     # how an input value reaches v before the conversion: System.add -> ModelData.add -> NumParam.add (contracts shared with C19 / C13),
     # and the writers that export the input-base values
